@@ -4,7 +4,8 @@ demo passes on the clean tree, fails with the change, the pinned suite still has
 Confirmed ones are stored under /verif/seeded/<id>/ (patch.diff regenerated against HEAD, demo.py, meta.json)."""
 import json, os, re, shutil, subprocess, sys
 
-SRC = '/tmp/mut'
+SRC = os.environ.get('SEED_SRC', '/tmp/mut')
+TAG = os.environ.get('SEED_TAG', '')       # e.g. 'r2' -> ids C01_r2m1
 OUT = '/verif/seeded'
 PY = '/venv/bin/python'
 
@@ -23,7 +24,7 @@ def main():
             continue
         prop = d[:-4]
         for m in ('m1', 'm2'):
-            sid = '%s_%s' % (prop, m)
+            sid = '%s_%s%s' % (prop, TAG, m)
             if only and sid not in only:
                 continue
             mdir = os.path.join(SRC, d, m)
@@ -36,7 +37,7 @@ def main():
                 print(sid, 'WORKTREE-FAILED', out[-200:]); continue
             env = dict(os.environ, PYTHONPATH=w, PYTHONDONTWRITEBYTECODE='1')
             demo = os.path.join(mdir, 'demo.py')
-            txt = open(demo).read().replace('/tmp/mut/%s' % prop, w)
+            txt = open(demo).read().replace('%s/%s' % (SRC, prop), w)
             dpath = os.path.join(w, '_demo.py')
             open(dpath, 'w').write(txt)
             rc_clean, out_clean = sh('%s _demo.py' % PY, cwd=w, env=env)
